@@ -1480,6 +1480,14 @@ func (m *Machine) Eval(source string, fn func(), ctx context.Context) bool {
 		if canceled.Load() {
 			return
 		}
+		// the func runs on the goroutine which drains the queue (possibly another
+		// caller's): a panic there would unwind the queue loop and leave the queue
+		// locked for good
+		defer func() {
+			if r := recover(); r != nil {
+				m.AddErr(fmt.Errorf("panic in eval:%s: %v", source, r), nil)
+			}
+		}()
 		fn()
 	}
 
